@@ -1,6 +1,16 @@
-"""C05: scalar line-search kernels of the SPG sub-problem solver (TrustRegionSPG.py); `settings` is not read by either."""
+"""C05: kernels of the SPG sub-problem solver (TrustRegionSPG.py) regenerated from the source:
+  * the two scalar line searches (`settings` is not read by either);
+  * spg_step_clip: the statement `alpha = min(1.0, max(0.0, alpha)) if sBs > 0 else 1.0` of solve_spg_subproblem (the 2nd of
+    exactly 2 assignments to `alpha` in that function), python builtins min/max with CPython's evaluation order;
+  * project at fixed dimensions 1, 2, 3 (finite bounds as an n x 2 array): the componentwise formula
+    np.maximum(lb, np.minimum(x, ub)); the list model `clamp`/`project` of model/M_C05_SPG.v is proved equal to these."""
 SPECS = [
     dict(name='TrustRegionSPG', file='optimism/TrustRegionSPG.py',
          funcs=[('nonmonotone_line_search', ['S', 'S', 'S', 'S', 'S']),
-                ('kouri_exact_line_search', ['S', 'S', 'S', 'S', 'S'])]),
+                ('kouri_exact_line_search', ['S', 'S', 'S', 'S', 'S']),
+                ('solve_spg_subproblem', ['S', 'S'],
+                 dict(coq_name='spg_step_clip', extract=dict(target='alpha', index=1, count=2, params=['alpha', 'sBs']))),
+                ('project', ['V1', 'M12'], dict(coq_name='project_n1')),
+                ('project', ['V2', 'M22'], dict(coq_name='project_n2')),
+                ('project', ['V3', 'M32'], dict(coq_name='project_n3'))]),
 ]
